@@ -9,6 +9,9 @@ mod kit;
 mod refm;
 mod scen;
 
+/// generate without executing the real code (used to dump the trace of a run that crashes the process)
+pub static DRY: std::sync::atomic::AtomicBool = std::sync::atomic::AtomicBool::new(false);
+
 use kit::json::J;
 use kit::sim::{run_batch, BatchCfg, Op, Scenario, Stats};
 use std::collections::BTreeMap;
@@ -121,7 +124,10 @@ fn do_trace<S: Scenario>(s: &S, args: &BTreeMap<String, String>) -> i32 {
     let max_ops: usize = arg(args, "max-ops", "48").parse().expect("--max-ops");
     let rs = kit::rng::run_seed(seed, s.name().split('@').next().unwrap(), r);
     let mut stats = Stats::default();
-    let out = kit::sim::run_generated(s, arg(args, "mix", ""), rs, max_ops, &mut stats);
+    if args.contains_key("dry") {
+        DRY.store(true, std::sync::atomic::Ordering::Relaxed);
+    }
+    let out = kit::sim::run_generated_at(s, arg(args, "mix", ""), rs, r, max_ops, &mut stats);
     let j = J::obj()
         .set("scenario", J::str(s.name()))
         .set("mix", J::str(arg(args, "mix", "")))
@@ -160,6 +166,7 @@ macro_rules! scenarios {
             "chacha_stream" => $f(&scen::s1_chacha_stream::S1, $($arg),*),
             "chacha_block" => $f(&scen::s2_chacha_block::S2, $($arg),*),
             "hash_stream" => $f(&scen::s4_hash_stream::S4, $($arg),*),
+            "mem" => $f(&scen::s5_mem::S5, $($arg),*),
             "chacha_stream@hosts" => $f(&scen::s3_hosts::Hosts { inner: scen::s1_chacha_stream::S1, name: "chacha_stream@hosts" }, $($arg),*),
             "chacha_block@hosts" => $f(&scen::s3_hosts::Hosts { inner: scen::s2_chacha_block::S2, name: "chacha_block@hosts" }, $($arg),*),
             "hash_stream@hosts" => $f(&scen::s3_hosts::Hosts { inner: scen::s4_hash_stream::S4, name: "hash_stream@hosts" }, $($arg),*),
@@ -194,6 +201,7 @@ fn main() {
     }
     kit::sim::install_panic_hook();
     hosts::install();
+    scen::arena::install_fault_handler();
     let code = match argv[1].as_str() {
         "selftest" => match selftest() {
             Ok(n) => {
@@ -208,6 +216,11 @@ fn main() {
         "run" => {
             let name = arg(&args, "scenario", "").to_string();
             scenarios!(name.as_str(), do_run, &args)
+        }
+        "info" => {
+            let ks = scen::s5_mem::kinds();
+            println!("{}", J::obj().set("mem_kinds", J::U(ks.len() as u128)).set("mem_enum_combos", J::U(scen::s5_mem::combos(&ks).len() as u128)).set("max_host_level", J::U(hosts::max_level() as u128)).to_string());
+            0
         }
         "trace" => {
             let name = arg(&args, "scenario", "").to_string();
